@@ -21,6 +21,7 @@ const pkgCache = "core/arbitrators/caching"
 
 func checkC19(c *Ctx, r *Report) {
 	defer checkMemoKeys(c, r, "C19.e")
+	defer ruleDecisionInputs(c, r, "C19.e", "core/pipeline", "graphs/symboldg")
 	defer checkNoInPlaceWritesToInputs(c, r, "C19.b", "core/metadata", "core/validators", "graphs/symboldg", "generator/swagen", "generator/routes")
 	defer checkGraphMutationSites(c, r, "C19.a")
 	defer checkContainerFields(c, r, "C19.e")
@@ -481,6 +482,10 @@ func checkNoInPlaceWritesToInputs(c *Ctx, r *Report, clause string, pkgPrefixes 
 				case *ssa.Field:
 					base = b.X
 				case *ssa.UnOp:
+					base = b.X
+				case *ssa.IndexAddr: // an element of a slice that was handed in (a range copy shares its slices)
+					base = b.X
+				case *ssa.Index:
 					base = b.X
 				case *ssa.Alloc:
 					// the spilled receiver / parameter copy
